@@ -403,7 +403,7 @@ def c16_spec(rng, idx):
         return {"kind": "genbench",
                 "name": configs.GEN_BENCH[j % len(configs.GEN_BENCH)],
                 "seed": rng.randint(0, 10 ** 6)}
-    if rng.random() < 0.15:
+    if rng.random() < 0.3:
         return {"kind": "genbench", "name": rng.choice(configs.GEN_BENCH),
                 "seed": rng.randint(0, 10 ** 6)}
     return {"kind": "generated",
